@@ -2577,6 +2577,10 @@ func (s *Server) serveConnCounted(c net.Conn, countConcurrency bool) error {
 					}
 
 					ctx.SetStatusCode(StatusExpectationFailed)
+					// Close connection since client may have already started sending body data.
+					// The body of the rejected request is never read, so whatever follows on
+					// this connection cannot be told apart from it.
+					connectionClose = true
 				}
 			}
 
